@@ -483,7 +483,15 @@ func init() {
 	g("RunPending", func(fr *frame, a []value) value { E.drain(); return nil })
 	g("Yield", func(fr *frame, a []value) value { E.yield(true); return nil })
 	g("Unfinished", func(fr *frame, a []value) value { return E.blockedGoroutines() })
+	g("GoroutinesSettled", func(fr *frame, a []value) value { return E.settle() })
+	g("VirtualNow", func(fr *frame, a []value) value { return E.desNow })
 	g("NewTimerChan", func(fr *frame, a []value) value {
+		return &xchan{timer: true, ctxDone: true, never: E.Params["TIMERS_FIRE"] != 1}
+	})
+	g("NewDeadlineChan", func(fr *frame, a []value) value {
+		if E.Params["TIMERS_DES"] == 1 {
+			return E.newDESTimer(a[0], true)
+		}
 		return &xchan{timer: true, ctxDone: true, never: E.Params["TIMERS_FIRE"] != 1}
 	})
 	g("ChanClosed", func(fr *frame, a []value) value { return a[0].(*xchan).closed })
@@ -534,24 +542,61 @@ func init() {
 		E.Stubs["Duration.Seconds of symbolic duration (opaque 0.0)"]++
 		return float64(0)
 	}
+	des := func() bool { return E.Params["TIMERS_DES"] == 1 }
 	ex["time.Sleep"] = func(fr *frame, a []value) value {
+		if des() {
+			// discrete-event sleep: block until the virtual clock reaches the deadline
+			t := E.newDESTimer(a[0], false)
+			E.block("sleep", func() bool { return t.fired })
+			return nil
+		}
 		E.clock = binop(token.ADD, tInt64, E.now(), a[0])
 		E.yield(false)
 		return nil
 	}
-	ex["time.After"] = func(fr *frame, a []value) value { return &xchan{cap: 1, timer: true, never: E.Params["TIMERS_FIRE"] != 1} }
+	ex["time.After"] = func(fr *frame, a []value) value {
+		if des() {
+			return E.newDESTimer(a[0], false)
+		}
+		return &xchan{cap: 1, timer: true, never: E.Params["TIMERS_FIRE"] != 1}
+	}
 	ex["time.NewTimer"] = func(fr *frame, a []value) value {
-		var cell value = structure{&xchan{cap: 1, timer: true, never: E.Params["TIMERS_FIRE"] != 1}, false}
+		var ch *xchan
+		if des() {
+			ch = E.newDESTimer(a[0], false)
+		} else {
+			ch = &xchan{cap: 1, timer: true, never: E.Params["TIMERS_FIRE"] != 1}
+		}
+		var cell value = structure{ch, false}
 		return &cell
 	}
 	ex["(*time.Timer).Stop"] = func(fr *frame, a []value) value {
 		s := (*(a[0].(*value))).(structure)
-		s[0].(*xchan).never = true
+		ch := s[0].(*xchan)
+		if ch.des {
+			// Go >= 1.23 timer semantics: after Stop no stale value is left in the channel
+			active := !ch.never && !ch.fired
+			ch.never = true
+			ch.buf = nil
+			return active
+		}
+		ch.never = true
 		return true
 	}
 	ex["(*time.Timer).Reset"] = func(fr *frame, a []value) value {
 		s := (*(a[0].(*value))).(structure)
-		s[0].(*xchan).never = E.Params["TIMERS_FIRE"] != 1
+		ch := s[0].(*xchan)
+		if ch.des {
+			d, ok := a[1].(int64)
+			if !ok {
+				panic(infraError{"TIMERS_DES needs concrete timer durations"})
+			}
+			active := !ch.never && !ch.fired
+			ch.never, ch.fired, ch.buf = false, false, nil
+			ch.deadline = E.desNow + d
+			return active
+		}
+		ch.never = E.Params["TIMERS_FIRE"] != 1
 		return true
 	}
 	ex["time.NewTicker"] = func(fr *frame, a []value) value {
